@@ -2,7 +2,7 @@
    the length of the longest spread chain from a fragment, computed with fuel; by the
    pigeonhole principle the computation is stable after |fragments| steps. *)
 From Coq Require Import List Arith Lia Bool String NArith Relations.
-From GQL Require Import Exec.Syntax Validate.Overlap Validate.OverlapSpec
+From GQL Require Import Exec.Syntax Validate.Overlap Validate.OverlapSpec Validate.OverlapWf
      Proofs.ValidateRules Proofs.ValidateOverlap Proofs.ValidateMemo Proofs.ValidateCost Proofs.ValidateL1
      Proofs.ValidateFuel.
 Import ListNotations.
@@ -28,15 +28,7 @@ Definition no_cycle : Prop := forall g, ~ reachD g g.
 
 Notation names := (map fr_name (d_frags D)).
 
-Fixpoint lp (n : nat) (g : name) : nat :=
-  match n with
-  | O => O
-  | Datatypes.S n' =>
-    match frag D g with
-    | None => O
-    | Some fr => Datatypes.S (list_max (map (lp n') (all_spreads (fr_sel fr))))
-    end
-  end.
+Notation lp := (lp D).
 
 Lemma lp_le : forall n g, lp n g <= n.
 Proof.
@@ -122,9 +114,9 @@ Proof.
   pose proof (NoDup_incl_length (dpath_nodup g l Hp) (dpath_defined g l Hp)) as L. lia.
 Qed.
 
-Theorem rank_exists : acyclic S D.
+Lemma lp_ranked : ranked S D (lp_rank D).
 Proof.
-  exists (lp (Datatypes.S (List.length names))). intros g b Eb h Hh.
+  unfold lp_rank. rewrite <- (map_length fr_name). intros g b Eb h Hh.
   apply fbody_some in Eb. destruct Eb as [fr [Ef Eb]]. subst b. unfold bodyf in Hh. simpl in Hh. unfold Occ in Hh.
   rewrite (lp_stable h).
   change (lp (Datatypes.S (List.length names)) g) with
@@ -133,6 +125,9 @@ Proof.
   assert (lp (List.length names) h <= list_max (map (lp (List.length names)) (all_spreads (fr_sel fr)))); [|lia].
   apply list_max_in_le. apply in_map. exact Hh.
 Qed.
+
+Theorem rank_exists : acyclic S D.
+Proof. exists (lp_rank D). exact lp_ranked. Qed.
 End Rank.
 
 (* conversely a ranked document has no cycle *)
@@ -142,4 +137,29 @@ Proof.
   assert (G : forall a b, reachD S D a b -> rk b < rk a).
   { intros a b H. induction H as [a b [bd [E Hh]] | a c b H1 IH1 H2 IH2]; [apply (Hrk a bd E b Hh) | lia]. }
   specialize (G g g R). lia.
+Qed.
+
+(* the certified executable test *)
+Lemma last_fragment_name' : forall g fs acc f,
+  last_fragment g fs acc = Some f -> acc = Some f \/ (In f fs /\ fr_name f = g).
+Proof.
+  intros g fs. induction fs as [|x r IH]; intros acc f H; simpl in *; [left; exact H|].
+  destruct (IH _ f H) as [E|[E1 E2]]; [|right; split; [right; exact E1 | exact E2]].
+  destruct (String.eqb g (fr_name x)) eqn:Eg; [|left; exact E].
+  inversion E; subst. right. split; [left; reflexivity | symmetry; apply String.eqb_eq; exact Eg].
+Qed.
+
+Theorem ranked_b_acyclic : forall S D, ranked_b D = true <-> acyclic S D.
+Proof.
+  intros S D. split.
+  - intro H. exists (lp_rank D). intros g b Eb h Hh.
+    apply fbody_some in Eb. destruct Eb as [fr [Ef Eb]]. subst b. unfold bodyf in Hh. simpl in Hh. unfold Occ in Hh.
+    pose proof Ef as Ef'. unfold frag in Ef'. destruct (last_fragment_name' _ _ _ _ Ef') as [E|[Hin En]]; [discriminate|].
+    unfold ranked_b in H. rewrite forallb_forall in H. specialize (H fr Hin). rewrite En, Ef in H.
+    rewrite forallb_forall in H. specialize (H h Hh). apply Nat.ltb_lt in H. exact H.
+  - intro A. pose proof (lp_ranked S D (acyclic_no_cycle S D A)) as R.
+    unfold ranked_b. apply forallb_forall. intros f Hf.
+    destruct (frag D (fr_name f)) as [fr|] eqn:Ef; [|reflexivity].
+    apply forallb_forall. intros h Hh. apply Nat.ltb_lt.
+    apply (R (fr_name f) (resolve S (fr_cond fr), fr_sel fr) (fbody_frag S D _ fr Ef) h Hh).
 Qed.
